@@ -1,5 +1,5 @@
 SPECIFICATION TraceSpec
 CONSTRAINT HighWater
-INVARIANTS Inv_NoDeniedValue Inv_DenialReported Inv_NullPropagates Inv_PrefetchRule Inv_Determined
+INVARIANTS Inv_NoDeniedValue Inv_DenialReported Inv_NullPropagates Inv_PrefetchRule Inv_FailClosed Inv_Determined
 POSTCONDITION TraceAccepted
 CHECK_DEADLOCK FALSE
